@@ -197,8 +197,8 @@ PROPS = {
                            for sb in ((4096, 4100, 0) if tier == "quick" else (4096, 4097, 4100, 8192, 65536, 0))],
         meta=M("exploration",
                "property-based testing under AddressSanitizer with a poisoning allocator: the generated/enumerated message shapes of C01, C04, C05, C13 and C15 plus truncated transfers and platform-level zero/odd-length regions, executed in an ASan build of harness + crate",
-               "The harness and the crate are compiled with -Zsanitizer=address; ASan's own recv/recvmsg interceptors stay active (only the send side is interposed) and a global allocator wrapper fills every fresh allocation with 0xCD, a byte payloads avoid, so bytes 'received' but never written by the transport show up as content mismatches. Boundary lengths per reported buffer size, 0..63 mixed attachments, region lengths around page boundaries, ENOBUFS-shrunk fragments, counts around the descriptor capacity, senders killed mid-message and platform-level zero-length regions are run; any sanitizer report or abort of the worker is reported as a violation with the case in flight as replay file, and all functional oracles of the source properties apply.",
-               "MemorySanitizer is not used (false positive in is_socket/fstat on the unchanged tree); the recv side is not interposed in this build, so cases keep the sending handle alive while receiving to stay clear of the kernel's end-of-file race.",
+               "The harness and the crate are compiled with -Zsanitizer=address; ASan's own recv/recvmsg interceptors stay active (the harness's recv/recvmsg wrappers call them instead of the raw system call and only add the masking of the kernel's end-of-file race) and a global allocator wrapper fills every fresh allocation with 0xCD, a byte payloads avoid, so bytes 'received' but never written by the transport show up as content mismatches. Boundary lengths per reported buffer size, 0..63 mixed attachments, region lengths around page boundaries, ENOBUFS-shrunk fragments, counts around the descriptor capacity, senders killed mid-message and platform-level zero-length regions are run; any sanitizer report or abort of the worker is reported as a violation with the case in flight as replay file, and all functional oracles of the source properties apply.",
+               "MemorySanitizer is not used (false positive in is_socket/fstat on the unchanged tree). The receive-side ledgers (MSG_TRUNC counter, event log of receives) are not kept in this build.",
                "cases = union of the C01/C04/C05/C13/C15 case types + zero/odd-length platform regions + truncated transfers; non-trivial = the source property's rule (length within +/-16 of a boundary, >=32 attachments, odd/zero-length region, retry-shrunk fragment, truncated transfer); distinct = distinct (params, canonical JSON)"),
     ),
     "C06": dict(
